@@ -24,4 +24,9 @@ CHECKS = {
         "text": "Decides the path-connectivity obligations that make the history table a tree of grammar paths and the back-trace a walk in it: null propagation, cross-word and within-tree transitions and word exits pass links, states, predecessor indices, frames and contexts that belong to the same history entry / lextree node (O1-O4); every store selecting the exit entry is control-dependent on (!final || to_state == final_state) of the entry at the stored index and 'nothing selected' returns -1 (O7); all four back-trace loops start at the exit, fetch the entry at the walk index and continue with its pred (O8); entry creation stores its parameters unmodified (O9); only fsg_history_entry_add writes entries (O10); final is FALSE from start and TRUE only in finish (O11); per-frame phase order. Does not decide that pruning keeps a path alive, nor completeness of the stored null closure.",
         "design_ref": "DESIGN.md section 4, C01",
     },
+    "C03": {
+        "technique": "custom static analysis over clang AST+CFG facts: argument/field provenance, polynomial (linear) normal forms for the score identity, sibling agreement of the two hypothesis passes, path pairing of step/advance/counters",
+        "text": "Decides: segment end = entry frame, start = predecessor entry's frame + 1 (0 without), clamped only under sf > ef; word and grammar score come from the same entry's link; ascr + lscr = score(e) - score(pred e) holds as a symbolic identity on both branches so segment scores telescope to the path score; the length pass and fill pass of the hypothesis builder skip the same (null/filler) entries, use the base form, count strlen+1 where the fill writes strlen + guarded separator, and the buffer is the counted length; each successful search step is followed by exactly one acmod_advance and one increment of each counter, processing calls return the sum from 0; the segment list is filled from the back and iterated from 0 to n_hist. Does not decide that the first segment starts at 0 or that nothing extends past the frames searched (runtime values).",
+        "design_ref": "DESIGN.md section 4, C03",
+    },
 }
